@@ -13,6 +13,18 @@ NA = {
 
 # id -> (engine, technique, level text, level note, design ref)
 CHECKS = {
+ "C05": ("zipsim", "deterministic simulation of the zip pipeline: simulated zip.File sources and writer with placed I/O faults -> real Create -> stored bytes -> real CheckZip/Unzip in a sandbox; reference restriction checker over the archive listing",
+   "Seeded source trees over an adversarial name alphabet, truthful or with 1-3 placed faults (writer error/short write at byte k, Open error, read error after k bytes, file grew/shrank after Lstat, Lstat error), valid and invalid module/version pairs; every successful Create is checked entry by entry against the documented restrictions, then through the real CheckZip and Unzip and compared byte for byte with the files the check reported valid.",
+   "Faults that never reached Create are not counted as delivered. Sampled, not exhaustive.", "4 (C05)"),
+ "C12": ("zipsim", "deterministic simulation with at-rest fault injection: hostile and damaged archives extracted by the real Unzip into a five-level sentinel sandbox snapshotted before and after; reference restriction checker decides what CheckZip must accept",
+   "Seeded archives from three sources (harness-built with hostile names, prefixes, directory entries and mode bits, lying and overflowing declared sizes; Create output truncated / bit-flipped / size-patched; intact Create output) against targets that are missing, empty, non-empty, a file or under a missing parent. Oracles: nothing outside the target changes; CheckZip accepts iff the documented restrictions hold; Unzip succeeds iff CheckZip accepts when data match declarations and fails when they lie; extracted tree equals the entries.",
+   "Failures of Unzip's own OS calls are not injected (no seam). An entry is a directory entry iff its name ends in a slash.", "4 (C12)"),
+ "C17": ("zipsim", "simulation of the file-listing environment (listing order, Lstat results, go.mod read results, real-file-system materialisation) against a reference classifier written from the documented rules",
+   "Seeded trees over an adversarial alphabet (case-fold orbits, vendor layouts, nested go.mod in any case, reserved/ill-formed/unclean/absolute names, duplicates, file/dir clashes, irregular modes, sizes at the limits, go versions absent/old/new/unparsable/unreadable) checked with CheckFiles in 3-6 listing orders: exactly-one-list, class by the documented rules (all readings accepted where the documentation is silent), colliding pairs never both valid, order independence; half of the runs compare CreateFromDir/CheckDir with Create/CheckFiles on a materialised tree.",
+   "Weak fit: no fault surface beyond listing order and Lstat/read results; the deciding part is the comparison with the reference classifier.", "4 (C17)"),
+ "C19": ("zipsim", "deterministic simulation of Hash1's open/read seam with placed faults and listing orders, plus HashZip/HashDir on archives produced and extracted by the zip pipeline; reference h1 formula",
+   "Seeded file sets over a hostile name alphabet hashed in 2-4 listing orders and compared with the documented formula; open/read faults placed on chosen files must yield an error and no hash; names with a newline at any position are refused; a near-identical second set must hash differently; a third of the runs hash a created zip and its extracted directory (named in five equivalent ways) and compare both with the formula.",
+   "Trusts SHA-256.", "4 (C19)"),
  "C03": ("sumdbsim", "deterministic simulation of the prover/verifier exchange: real Prove*/Check* over a failing HashReader or the faulty tile transport, seeded in-transit mutation of the proof tuple, reference RFC 6962 prover and RFC 9162 verifier as oracle; exhaustive small (t,n) sweep",
    "All (t, n) pairs up to 160 are enumerated (proof equals the reference, accepted, and presented under all 25 shifted (t, n) pairs accepted iff the RFC 9162 algorithm accepts); seeded runs add trees up to 300 real records and virtual uniform trees up to 2^41 leaves, 22 kinds of tuple mutation, HashReader faults and proofs through the authenticating tile reader. Non-termination of a call is reported after 20 s.",
    "The soundness half is a pure relation on the tuple; the simulator contributes the HashReader/tile-transport fault model. Trusts SHA-256 and sim/ref. Sampled beyond the swept range.", "4 (C03)"),
